@@ -77,6 +77,7 @@ type BatchResult struct {
 	ShiftPairs  int            `json:"shift_pairs"` // (violation, k) pairs compared
 	ShiftSkips  []string       `json:"shift_skips,omitempty"`
 	Crash       string         `json:"crash,omitempty"` // filled by the master
+	Large       bool           `json:"large,omitempty"` // a large single-call run (its modules are partly those of ordinary batches)
 }
 
 type LocFinding struct {
@@ -224,6 +225,7 @@ func runBatch(idx int, mods []Module, job *Job) BatchResult {
 	}
 	if opt := job.opt(idx); opt.Large || len(opt.RuleSets) > 0 {
 		runLarge(&res, parsed, opt, timeout)
+		res.Large = opt.Large
 		res.Millis = time.Since(t0).Milliseconds()
 		return res
 	}
